@@ -26,6 +26,8 @@ type sfNode struct {
 	mtime  int64
 	uid    uint32
 	gid    uint32
+	shape  byte           // what its FileInfo looks like: 0 with Uid/Gid, 1 a plain os.FileInfo, 2 with Uid/Gid and extended data
+	ext    []StatExtended // for shape 2
 }
 
 type sfCall struct {
@@ -169,7 +171,7 @@ func (x *sfObjCloser) WriteAt(b []byte, off int64) (int, error) { return x.o.wri
 func (x *sfObjCloser) ListAt(b []os.FileInfo, off int64) (int, error) {
 	return x.o.listAt(b, off)
 }
-func (x *sfObjCloser) Close() error                            { return x.o.close() }
+func (x *sfObjCloser) Close() error                           { return x.o.close() }
 func (x *sfObjFull) ReadAt(b []byte, off int64) (int, error)  { return x.o.readAt(b, off) }
 func (x *sfObjFull) WriteAt(b []byte, off int64) (int, error) { return x.o.writeAt(b, off) }
 func (x *sfObjFull) ListAt(b []os.FileInfo, off int64) (int, error) {
@@ -338,8 +340,30 @@ func (i *sfInfo) Sys() any           { return nil }
 func (i *sfInfo) Uid() uint32        { return i.nd.uid }
 func (i *sfInfo) Gid() uint32        { return i.nd.gid }
 
+// sfPlainInfo has neither Uid/Gid nor extended data: its attributes go out with fewer flags.
+type sfPlainInfo struct{ i *sfInfo }
+
+func (p sfPlainInfo) Name() string       { return p.i.Name() }
+func (p sfPlainInfo) Size() int64        { return p.i.Size() }
+func (p sfPlainInfo) Mode() os.FileMode  { return p.i.Mode() }
+func (p sfPlainInfo) ModTime() time.Time { return p.i.ModTime() }
+func (p sfPlainInfo) IsDir() bool        { return p.i.IsDir() }
+func (p sfPlainInfo) Sys() any           { return nil }
+
+// sfExtInfo adds extended data.
+type sfExtInfo struct{ *sfInfo }
+
+func (e sfExtInfo) Extended() []StatExtended { return e.nd.ext }
+
 func (fs *sfs) info(p string, nd *sfNode) os.FileInfo {
-	return &sfInfo{name: path.Base(p), nd: nd, size: int64(len(nd.data))}
+	i := &sfInfo{name: path.Base(p), nd: nd, size: int64(len(nd.data))}
+	switch nd.shape {
+	case 1:
+		return sfPlainInfo{i}
+	case 2:
+		return sfExtInfo{i}
+	}
+	return i
 }
 
 func (fs *sfs) children(dir string) []string {
